@@ -1088,7 +1088,7 @@ class PtychographyDatasetRaster(DatasetConstraints):
             ):
                 masked_intensity = intensities[Rr, Rc]
                 if dp_mask is not None:
-                    masked_intensity *= dp_mask
+                    masked_intensity = masked_intensity * dp_mask
                 summed_intensity = masked_intensity.sum()
                 com_measured_r[Rr, Rc] = np.sum(masked_intensity * krm) / summed_intensity
                 com_measured_c[Rr, Rc] = np.sum(masked_intensity * kcm) / summed_intensity
